@@ -39,6 +39,10 @@ pub struct ConnCase {
     pub concurrency: Option<usize>,
     pub timeout_ms: Option<u64>,
     pub via: Via,
+    /// an extra first candidate whose socket cannot even be set up: an IPv6 address, with a local
+    /// IPv6 bind address configured that this host does not have (bind fails synchronously)
+    #[serde(default)]
+    pub setup_fails_first: bool,
 }
 
 pub struct RealConnectSim {
@@ -55,7 +59,12 @@ fn enumerated() -> Vec<ConnCase> {
                         if via == Via::Call && n == 0 {
                             continue;
                         }
-                        v.push(ConnCase { seed: 3, listening: (0..n).map(|i| mask & (1 << i) != 0).collect(), concurrency, timeout_ms, via });
+                        for setup_fails_first in [false, true] {
+                            if setup_fails_first && n > 3 {
+                                continue;
+                            }
+                            v.push(ConnCase { seed: 3, listening: (0..n).map(|i| mask & (1 << i) != 0).collect(), concurrency, timeout_ms, via, setup_fails_first });
+                        }
                     }
                 }
             }
@@ -64,16 +73,29 @@ fn enumerated() -> Vec<ConnCase> {
     v
 }
 
-/// Bind listeners (or reserve closed ports) on 127.0.0.(20+i):P for one common P.
+static NEXT_LANE: std::sync::atomic::AtomicU32 = std::sync::atomic::AtomicU32::new(1);
+thread_local! {
+    static LANE: u8 = (NEXT_LANE.fetch_add(1, std::sync::atomic::Ordering::Relaxed) % 250) as u8 + 1;
+}
+
+/// Candidate i of this worker thread: 127.<process>.<thread>.(20+i). Every worker thread of every
+/// concurrently running process has its own block of loopback addresses, so that one run's
+/// closed port can never be another run's listener.
+fn candidate_ip(i: usize) -> Ipv4Addr {
+    let proc_octet = (std::process::id() % 200) as u8 + 20;
+    Ipv4Addr::new(127, proc_octet, LANE.with(|l| *l), 20 + i as u8)
+}
+
+/// Bind listeners (or reserve closed ports) on candidate_ip(i):P for one common P.
 fn setup(listening: &[bool]) -> std::io::Result<(u16, Vec<Option<std::net::TcpListener>>)> {
     'retry: for _ in 0..50 {
         // pick a port that is free on every candidate address
-        let probe = std::net::TcpListener::bind(SocketAddrV4::new(Ipv4Addr::new(127, 0, 0, 19), 0))?;
+        let probe = std::net::TcpListener::bind(SocketAddrV4::new(candidate_ip(200), 0))?;
         let port = probe.local_addr()?.port();
         drop(probe);
         let mut ls = vec![];
         for (i, l) in listening.iter().enumerate() {
-            let addr = SocketAddrV4::new(Ipv4Addr::new(127, 0, 0, 20 + i as u8), port);
+            let addr = SocketAddrV4::new(candidate_ip(i), port);
             match std::net::TcpListener::bind(addr) {
                 Ok(s) => {
                     s.set_nonblocking(true)?;
@@ -97,7 +119,7 @@ impl Scenario for RealConnectSim {
 
     fn info(&self) -> ScenarioInfo {
         ScenarioInfo {
-            rule: "TcpTransport (connect_to_addrs, and tower::Service::call with a static resolver) against 0..5 candidate addresses 127.0.0.(20+i):P, each either listening (never accepting: the backlog count says whether it was attempted) or closed (refuses at once), x happy_eyeballs_concurrency {None, 1, 2} x happy_eyeballs_timeout {None, 30 s}; all combinations up to 4 candidates enumerated, seeded beyond. Oracle (C10): Ok iff some candidate listens, the returned stream's peer is a listening candidate, with no candidates it fails at once (not at the deadline), with all refusing the error is a refusal; (C11): with concurrency 1 the winner is the first listening candidate in the given order and no later candidate was attempted; with concurrency 2 nothing beyond the second candidate after the last failure before the winner was attempted; every candidate is attempted at most once; the port of the URI is used for every address.".into(),
+            rule: "TcpTransport (connect_to_addrs, and tower::Service::call with a static resolver) against 0..5 candidate addresses 127.<process>.<thread>.(20+i):P, each either listening (never accepting: the backlog count says whether it was attempted) or closed (refuses at once), optionally preceded by a candidate whose socket cannot be set up (IPv6 address with an unbindable local IPv6 address configured), x happy_eyeballs_concurrency {None, 1, 2} x happy_eyeballs_timeout {None, 30 s}; all combinations up to 4 candidates enumerated, seeded beyond. Oracle (C10): Ok iff some candidate listens, the returned stream's peer is a listening candidate, with no candidates it fails at once (not at the deadline), with all refusing the error is a refusal; (C11): with concurrency 1 the winner is the first listening candidate in the given order and no later candidate was attempted; with concurrency 2 nothing beyond the second candidate after the last failure before the winner was attempted; every candidate is attempted at most once; the port of the URI is used for every address.".into(),
             real: vec![
                 "client::conn::transport::tcp::{TcpTransport, TcpConnecting, TcpConnectionAttempt, connect()}, dns::SocketAddrs (pop order, set_port, sort_preferred with one family), happy_eyeballs::EyeballSet, stream::tcp::TcpStream",
                 "Linux loopback TCP (real kernel sockets; accept and refuse are immediate there)",
@@ -124,6 +146,7 @@ impl Scenario for RealConnectSim {
             concurrency: *r.pick(&[None, Some(1), Some(2), Some(3)]),
             timeout_ms: *r.pick(&[None, Some(30_000u64)]),
             via: *r.pick(&[Via::Addrs, Via::Call]),
+            setup_fails_first: r.chance(1, 4),
         }
     }
 
@@ -138,7 +161,10 @@ impl Scenario for RealConnectSim {
                 return out;
             }
         };
-        let addrs: Vec<SocketAddr> = (0..case.listening.len()).map(|i| SocketAddr::V4(SocketAddrV4::new(Ipv4Addr::new(127, 0, 0, 20 + i as u8), port))).collect();
+        let addrs: Vec<SocketAddr> = (0..case.listening.len()).map(|i| SocketAddr::V4(SocketAddrV4::new(candidate_ip(i), port))).collect();
+        // what is handed to the transport: optionally with the candidate in front that cannot be set up
+        let bad: SocketAddr = SocketAddr::new("2001:db8::5".parse().unwrap(), port);
+        let offered: Vec<SocketAddr> = if case.setup_fails_first { std::iter::once(bad).chain(addrs.iter().copied()).collect() } else { addrs.clone() };
         let rt = tokio::runtime::Builder::new_current_thread().enable_all().build().expect("runtime");
         let started = std::time::Instant::now();
         let res = std::panic::catch_unwind(std::panic::AssertUnwindSafe(|| {
@@ -147,15 +173,18 @@ impl Scenario for RealConnectSim {
                 cfg.happy_eyeballs_concurrency = case.concurrency;
                 cfg.happy_eyeballs_timeout = case.timeout_ms.map(Duration::from_millis);
                 cfg.connect_timeout = Some(Duration::from_secs(5));
+                if case.setup_fails_first {
+                    cfg.local_address_ipv6 = Some("2001:db8::1".parse().unwrap());
+                }
                 let fut = async {
                     match case.via {
                         Via::Addrs => {
                             let t: TcpTransport<_, hyperdriver::stream::tcp::TcpStream> = TcpTransport::builder().with_config(cfg).with_gai_resolver().build();
-                            t.connect_to_addrs(addrs.clone()).await.map_err(|e| format!("{:?}", e))
+                            t.connect_to_addrs(offered.clone()).await.map_err(|e| format!("{:?}", e))
                         }
                         Via::Call => {
                             // the resolver answers with port 1; the transport must put the URI's port on every address
-                            let list: Vec<SocketAddr> = addrs.iter().map(|a| SocketAddr::new(a.ip(), 1)).collect();
+                            let list: Vec<SocketAddr> = offered.iter().map(|a| SocketAddr::new(a.ip(), 1)).collect();
                             let resolver = tower::service_fn(move |_host: Box<str>| {
                                 let list = list.clone();
                                 async move { Ok::<_, std::io::Error>(SocketAddrs::from_iter(list)) }
@@ -210,7 +239,14 @@ impl Scenario for RealConnectSim {
         sig.push(case.concurrency.map(|c| c as u64 + 1).unwrap_or(0));
         sig.push(case.timeout_ms.is_some() as u64);
         sig.push(case.via as u64);
+        sig.push(case.setup_fails_first as u64);
         out.abstract_sig = sig.0;
+        if case.setup_fails_first {
+            out.count("fault.candidate_socket_setup_fails");
+        }
+        for l in &case.listening {
+            out.count(if *l { "probe.candidate_listening" } else { "fault.candidate_refuses" });
+        }
         out.nontrivial = n >= 2;
         out.sim_ms = started.elapsed().as_millis() as u64;
         let csig = json!({"via": format!("{:?}", case.via), "concurrency": case.concurrency});
@@ -230,7 +266,7 @@ impl Scenario for RealConnectSim {
                     if started.elapsed() > Duration::from_secs(5) {
                         v10("no_candidates_not_immediate", format!("no candidates: error only after {:?}: {}", started.elapsed(), e));
                     }
-                } else if !(e.to_lowercase().contains("refused")) {
+                } else if !case.setup_fails_first && !(e.to_lowercase().contains("refused")) {
                     v10("wrong_error_when_all_refuse", format!("all {} candidates refuse, error is: {}", n, e));
                 }
             }
@@ -307,6 +343,11 @@ impl Scenario for RealConnectSim {
         if case.via != Via::Addrs {
             let mut c = case.clone();
             c.via = Via::Addrs;
+            v.push(c);
+        }
+        if case.setup_fails_first {
+            let mut c = case.clone();
+            c.setup_fails_first = false;
             v.push(c);
         }
         v
